@@ -1,0 +1,206 @@
+//! Verification hooks. Only compiled with `--cfg gluon_verif`; every entry point is inert until a
+//! harness switches it on, so a build with the cfg set behaves like a normal build by default.
+use std::cell::{Cell, RefCell};
+use std::collections::HashMap;
+use std::sync::atomic::{AtomicBool, AtomicU64, AtomicUsize, Ordering};
+use std::sync::Mutex;
+
+static SEQ: AtomicU64 = AtomicU64::new(0);
+static NEXT_HEAP: AtomicUsize = AtomicUsize::new(1);
+static GLOBAL_EVENTS: AtomicBool = AtomicBool::new(false);
+static GLOBAL_SINK: Mutex<Vec<String>> = Mutex::new(Vec::new());
+static GLOBAL_STRESS: AtomicUsize = AtomicUsize::new(0);
+static GLOBAL_QUARANTINE: AtomicBool = AtomicBool::new(false);
+static HEAP_PARENT: Mutex<Vec<(usize, usize)>> = Mutex::new(Vec::new());
+
+thread_local! {
+    static EVENTS: Cell<bool> = Cell::new(false);
+    static SINK: RefCell<Vec<String>> = RefCell::new(Vec::new());
+    static STRESS: Cell<usize> = Cell::new(0);
+    static STRESS_CTR: Cell<usize> = Cell::new(0);
+    static QUARANTINE: Cell<bool> = Cell::new(false);
+    static PEAK: Cell<usize> = Cell::new(0);
+    static INSTRS: Cell<u64> = Cell::new(0);
+}
+
+/// Fresh identity for a heap (`Gc`)
+pub fn next_heap_id() -> usize {
+    NEXT_HEAP.fetch_add(1, Ordering::Relaxed)
+}
+
+/// Records that heap `child` was created as a child of heap `parent`
+pub fn heap_child(parent: usize, child: usize) {
+    HEAP_PARENT.lock().unwrap().push((child, parent));
+}
+
+/// Records that heap `new` replaces heap `old` (the global heap is swapped during VM creation)
+pub fn heap_alias(old: usize, new: usize) {
+    let mut v = HEAP_PARENT.lock().unwrap();
+    for e in v.iter_mut() {
+        if e.1 == old {
+            e.1 = new;
+        }
+    }
+}
+
+/// `(child, parent)` pairs of all heaps created so far
+pub fn heap_parents() -> HashMap<usize, usize> {
+    HEAP_PARENT.lock().unwrap().iter().cloned().collect()
+}
+
+/// Events recorded on this OS thread only
+pub fn set_events(on: bool) {
+    EVENTS.with(|e| e.set(on));
+}
+
+/// Events recorded from every OS thread into one sequence
+pub fn set_global_events(on: bool) {
+    GLOBAL_EVENTS.store(on, Ordering::SeqCst);
+}
+
+#[inline]
+pub fn events_on() -> bool {
+    GLOBAL_EVENTS.load(Ordering::Relaxed) || EVENTS.with(|e| e.get())
+}
+
+/// Appends an event; `body` is the inside of a JSON object without the braces
+pub fn emit(body: std::fmt::Arguments) {
+    if GLOBAL_EVENTS.load(Ordering::Relaxed) {
+        let mut sink = GLOBAL_SINK.lock().unwrap();
+        let seq = SEQ.fetch_add(1, Ordering::SeqCst);
+        sink.push(format!(
+            "{{\"seq\":{},\"os\":\"{:?}\",{}}}",
+            seq,
+            std::thread::current().id(),
+            body
+        ));
+    } else if EVENTS.with(|e| e.get()) {
+        let seq = SEQ.fetch_add(1, Ordering::Relaxed);
+        SINK.with(|s| s.borrow_mut().push(format!("{{\"seq\":{},{}}}", seq, body)));
+    }
+}
+
+pub fn take_events() -> Vec<String> {
+    SINK.with(|s| std::mem::take(&mut *s.borrow_mut()))
+}
+
+pub fn take_global_events() -> Vec<String> {
+    std::mem::take(&mut *GLOBAL_SINK.lock().unwrap())
+}
+
+/// Collect at every `k`-th collection check on this OS thread (0 = off)
+pub fn set_stress(k: usize) {
+    STRESS.with(|s| s.set(k));
+    STRESS_CTR.with(|s| s.set(0));
+}
+
+pub fn set_global_stress(k: usize) {
+    GLOBAL_STRESS.store(k, Ordering::SeqCst);
+}
+
+#[inline]
+pub fn stress_tick() -> bool {
+    let mut k = STRESS.with(|s| s.get());
+    if k == 0 {
+        k = GLOBAL_STRESS.load(Ordering::Relaxed);
+        if k == 0 {
+            return false;
+        }
+    }
+    STRESS_CTR.with(|c| {
+        let n = c.get() + 1;
+        if n >= k {
+            c.set(0);
+            true
+        } else {
+            c.set(n);
+            false
+        }
+    })
+}
+
+/// Freed blocks are flagged, poisoned and leaked instead of returned to the allocator
+pub fn set_quarantine(on: bool) {
+    QUARANTINE.with(|q| q.set(on));
+}
+
+pub fn set_global_quarantine(on: bool) {
+    GLOBAL_QUARANTINE.store(on, Ordering::SeqCst);
+}
+
+#[inline]
+pub fn quarantine() -> bool {
+    QUARANTINE.with(|q| q.get()) || GLOBAL_QUARANTINE.load(Ordering::Relaxed)
+}
+
+/// Highest value-stack length seen since the last call to `take_peak`
+#[inline]
+pub fn note_slen(len: usize) {
+    PEAK.with(|p| {
+        if len > p.get() {
+            p.set(len)
+        }
+    });
+    INSTRS.with(|i| i.set(i.get() + 1));
+}
+
+pub fn take_peak(current: usize) -> usize {
+    PEAK.with(|p| {
+        let v = p.get().max(current);
+        p.set(current);
+        v
+    })
+}
+
+/// Number of interpreted instructions on this OS thread
+pub fn instructions() -> u64 {
+    INSTRS.with(|i| i.get())
+}
+
+/// One object reached by a walk
+#[derive(Debug, Clone)]
+pub struct Node {
+    pub addr: usize,
+    pub heap: usize,
+    pub generation: i32,
+    pub size: usize,
+    pub freed: bool,
+    pub type_name: &'static str,
+}
+
+/// Everything reachable from the roots of a thread: objects and pointer edges (indices into
+/// `nodes`; `usize::MAX` as source = a root)
+#[derive(Debug, Default)]
+pub struct Graph {
+    pub nodes: Vec<Node>,
+    pub index: HashMap<usize, usize>,
+    pub edges: Vec<(usize, usize)>,
+    pub stack: Vec<usize>,
+}
+
+impl Graph {
+    /// Returns true if the object was already seen (or must not be entered)
+    pub fn visit(&mut self, node: Node) -> bool {
+        let from = self.stack.last().cloned().unwrap_or(usize::MAX);
+        if let Some(&i) = self.index.get(&node.addr) {
+            self.edges.push((from, i));
+            return true;
+        }
+        let freed = node.freed;
+        let i = self.nodes.len();
+        self.index.insert(node.addr, i);
+        self.nodes.push(node);
+        self.edges.push((from, i));
+        freed
+    }
+    pub fn enter(&mut self, addr: usize) {
+        if let Some(&i) = self.index.get(&addr) {
+            self.stack.push(i);
+        } else {
+            self.stack.push(usize::MAX);
+        }
+    }
+    pub fn leave(&mut self) {
+        self.stack.pop();
+    }
+}
